@@ -172,6 +172,10 @@ RESIDUALS = {
     "parshift": (("u", "x", "D"), lambda u, x, D, c: u + D * c[0] - c[1]),
     "paronly": (("x", "D"), lambda x, D, c: D * c[0] - x),
     "dataf": (("u", "x", "f"), lambda u, x, f, c: u - f * c[0]),
+    "paronlyf": (("x", "D", "f"), lambda x, D, f, c: D * c[0] - x + f),
+    "perf": (("u_left", "u_right", "f_left", "f_right"), lambda ul, ur, fl, fr, c: ul - ur * c[0] - fl + fr * c[1]),
+    "per2": (("u_left", "u_right", "t"), lambda ul, ur, t, c: ul - ur * c[0] - c[1] * t),
+    "per2f": (("u_left", "u_right", "t", "f_left", "f_right"), lambda ul, ur, t, fl, fr, c: ul - ur - fl * c[0] + fr + t * c[1]),
     "per": (("u_left", "u_right", "x_right"), lambda ul, ur, xr, c: ul - ur * c[0] - c[1] * xr),
     "perD": (("u_left", "u_right", "D"), lambda ul, ur, D, c: ul * D - ur - c[1]),
 }
@@ -218,7 +222,7 @@ def build(case):
     """fresh torchphysics objects for `case`; identical calls give identical objects"""
     tp = common.use_repo()
     import torch
-    X = tp.spaces.R1("x"); U = tp.spaces.R1("u"); V = tp.spaces.R1("v")
+    X = tp.spaces.R1("x"); U = tp.spaces.R1("u"); V = tp.spaces.R1("v"); T = tp.spaces.R1("t")
     dt = torch.float64 if case["channel"] == "rat" else torch.float32
     B = Built()
     B.tp, B.torch = tp, torch
@@ -250,9 +254,26 @@ def build(case):
                 y = y + self.coef[k] * x ** k if k else y + self.coef[0]
             return tp.spaces.Points(y, self.output_space)
 
+    class Poly2(tp.models.Model):
+        """u(x, t) = a0 + a1 x + a2 t + a3 x t"""
+
+        def __init__(self, init):
+            super().__init__(X * T, U)
+            self.coef = torch.nn.Parameter(torch.tensor([float(Fraction(a)) for a in init], dtype=dt))
+
+        def forward(self, points):
+            points = self._fix_points_order(points)
+            z = points.as_tensor.to(self.coef.dtype)
+            x, t = z[..., :1], z[..., 1:2]
+            return tp.spaces.Points(self.coef[0] + self.coef[1] * x + self.coef[2] * t + self.coef[3] * x * t, U)
+
     B.models, B.model_syms = [], []
     for mi, m in enumerate(case["models"]):
-        if m["kind"] == "poly":
+        if m["kind"] == "poly2":
+            mod = Poly2(m["init"])
+            ids = reg_tensor(f"model{mi}.coef", mod.coef)
+            B.model_syms.append(lambda x, t, ids=ids: Sym.par(ids[0]) + Sym.par(ids[1]) * x + Sym.par(ids[2]) * t + Sym.par(ids[3]) * x * t)
+        elif m["kind"] == "poly":
             mod = Poly(m["init"], X, U)
             ids = reg_tensor(f"model{mi}.coef", mod.coef)
             B.model_syms.append(lambda x, ids=ids: _poly_sym(ids, x))
@@ -293,15 +314,28 @@ def build(case):
     class FixedSampler(tp.samplers.PointSampler):
         """emits the given point sets in turn (set number = call count mod number of sets)"""
 
-        def __init__(self, sets):
+        def __init__(self, sets, space=X):
             super().__init__(n_points=len(sets[0]))
             self.sets = [torch.tensor([[float(Fraction(a))] for a in s], dtype=dt) for s in sets]
             self.ncalls = 0
+            self.space = space
 
         def sample_points(self, params=tp.spaces.Points.empty(), device="cpu", **kw):
             s = self.sets[self.ncalls % len(self.sets)]
             self.ncalls += 1
-            return tp.spaces.Points(s.clone(), X)
+            return tp.spaces.Points(s.clone(), self.space)
+
+    def staticize(sampler, c, force=False):
+        """static wrapper as configured: never resampling (default) or resampling every `static_interval` calls"""
+        if force or c.get("static"):
+            r = c.get("static_interval")
+            return sampler.make_static(r) if r else sampler.make_static()
+        return sampler
+
+    def data_fn(names, f, cc, c):
+        """a data function: plain callable or (c['f_wrapped']) a UserFunction object"""
+        g = make_fn(names, f, cc)
+        return tp.utils.UserFunction(g) if c.get("f_wrapped") else g
 
     class Probe(tp.conditions.Condition):
         """loss = (coef0 - c0 * iteration)^2 : makes the iteration argument visible in the learnable state"""
@@ -333,7 +367,10 @@ def build(case):
         if par is not None:
             kw["parameter"] = par
         if kind in SAMPLER_KINDS:
-            if kind == "integro":
+            if kind == "integro" and c.get("with_f"):
+                names = ("u", "u_integral", "f")
+                fn = make_fn(names, lambda u, ui, f, c_: u - c_[0] * ui.mean(dim=1, keepdim=True) - f, cc)
+            elif kind == "integro":
                 names = ("u", "u_integral")
                 fn = make_fn(names, lambda u, ui, c_: u - c_[0] * ui.mean(dim=1, keepdim=True) - c_[1], cc)
             else:
@@ -345,11 +382,9 @@ def build(case):
                 sampler = tp.samplers.GridSampler(I, n_points=c["lib_sampler"]).make_static()
                 sampler.sample_points()
             else:
-                sampler = FixedSampler(c["sets"])
-                if kind == "adaptive" or c.get("static"):
-                    sampler = sampler.make_static()
+                sampler = staticize(FixedSampler(c["sets"]), c, force=(kind == "adaptive"))
             if "f" in names:
-                kw["data_functions"] = {"f": make_fn(("x",), lambda x, c_: x * c_[1] + c_[2], cc)}
+                kw["data_functions"] = {"f": data_fn(("x",), lambda x, c_: x * c_[1] + c_[2], cc, c)}
             if kind == "pinn":
                 cond = tp.conditions.PINNCondition(mod, sampler, fn, name=name, weight=w,
                                                    track_gradients=c.get("track", True), **kw)
@@ -386,6 +421,12 @@ def build(case):
             names, f = RESIDUALS[c["res"]]
             names = tuple(f"D{c['param']}" if n == "D" else n for n in names)
             I = tp.domains.Interval(X, float(Fraction(c["lb"])), float(Fraction(c["ub"])))
+            if c.get("np_sets"):
+                kw["non_periodic_sampler"] = staticize(FixedSampler(c["np_sets"], space=T), c)
+                if "f_left" in names:
+                    kw["data_functions"] = {"f": data_fn(("x", "t"), lambda x, t, c_: x * c_[1] + t * c_[2] + c_[0], cc, c)}
+            elif "f_left" in names:
+                kw["data_functions"] = {"f": data_fn(("x",), lambda x, c_: x * c_[1] + c_[2], cc, c)}
             cond = tp.conditions.PeriodicCondition(mod, I, make_fn(names, f, cc), name=name, weight=w,
                                                    track_gradients=c.get("track", True), **kw)
         elif kind in ("hpm_data", "hpcm"):
@@ -469,6 +510,18 @@ def cond_tensor_ids(case, B, c, where, ci):
     return ids
 
 
+def set_sequence(c, sets, force=False):
+    """the point sets a condition's sampler delivers at its calls 0 .. period-1:
+    non-static: the sets in turn; static, never resampling: the first set; StaticSampler(resample_interval=r):
+    a new set at calls 0, r, 2r, ... (counter < r keeps the points)"""
+    if force or c.get("static"):
+        r = c.get("static_interval")
+        if not r:
+            return sets[:1]
+        return [sets[(n // r) % len(sets)] for n in range(r * len(sets))]
+    return sets
+
+
 def cond_syms(case, B, c, where, ci):
     """the loss of the condition at its n-th call, n = 0 .. period-1, as Sym"""
     kind = c["kind"]
@@ -478,17 +531,30 @@ def cond_syms(case, B, c, where, ci):
     if kind == "periodic":
         names, f = RESIDUALS[c["res"]]
         lb, ub = Sym.lift(Fraction(c["lb"])), Sym.lift(Fraction(c["ub"]))
-        args = dict(u_left=msym(lb), u_right=msym(ub), x_left=lb, x_right=ub, D=D)
+        if c.get("np_sets"):
+            out = []
+            for s_ in set_sequence(c, c["np_sets"]):
+                terms = []
+                for tv in s_:
+                    t = Sym.lift(Fraction(tv))
+                    args = dict(u_left=msym(lb, t), u_right=msym(ub, t), t=t, D=D,
+                                f_left=lb * cc[1] + t * cc[2] + cc[0], f_right=ub * cc[1] + t * cc[2] + cc[0])
+                    r = f(*[args[n] for n in names], cc)
+                    terms.append(r * r)
+                out.append(mean_of(terms))
+            return out
+        args = dict(u_left=msym(lb), u_right=msym(ub), x_left=lb, x_right=ub, D=D,
+                    f_left=lb * cc[1] + cc[2], f_right=ub * cc[1] + cc[2])
         r = f(*[args[n] for n in names], cc)
         return [r * r]
     if kind == "integro":
         ui = mean_of([msym(Sym.lift(Fraction(a))) for a in c["int_set"]])
-        sets = c["sets"][:1] if c.get("static") else c["sets"]
         out = []
-        for s_ in sets:
+        for s_ in set_sequence(c, c["sets"]):
             terms = []
             for xv in s_:
-                r = msym(Sym.lift(Fraction(xv))) - ui * cc[0] - cc[1]
+                x = Sym.lift(Fraction(xv))
+                r = msym(x) - ui * cc[0] - ((x * cc[1] + cc[2]) if c.get("with_f") else cc[1])
                 terms.append(r * r)
             out.append(mean_of(terms))
         return out
@@ -517,7 +583,7 @@ def cond_syms(case, B, c, where, ci):
         return batches
     if kind in SAMPLER_KINDS:
         names, f = RESIDUALS[c["res"]]
-        sets = c["sets"][:1] if (kind == "adaptive" or c.get("static")) else c["sets"]
+        sets = set_sequence(c, c["sets"], force=(kind == "adaptive"))
         out = []
         aw = cond_tensor_ids(case, B, c, where, ci)[-len(c["sets"][0]):] if kind == "adaptive" else None
         for s in sets:
@@ -741,19 +807,23 @@ def gen_cond(rng, case, where, allow_probe=True):
         use_par = npar and rng.random() < 0.6
         if kind == "hpm_sampler":
             c["param"] = rng.randrange(npar)
-            c["res"] = "paronly"
+            c["res"] = rng.choice(["paronly", "paronlyf"])
         elif kind == "integro":
             c["res"] = "integro"
+            c["with_f"] = rng.random() < 0.5
             c["int_set"] = gen_points(rng, rng.choice([1, 2, 3]))
         elif use_par:
             c["param"] = rng.randrange(npar)
             c["res"] = rng.choice(["par", "parshift"])
         else:
-            c["res"] = rng.choice(["lin", "lin", "quad", "dataf"]) if kind not in ("mean", "ritz") else rng.choice(["lin", "quad"])
+            c["res"] = rng.choice(["lin", "lin", "quad", "dataf", "dataf"])
         npts = rng.choice([1, 2, 3, 4])
-        nsets = 1 if (kind == "adaptive" or c["res"] == "dataf") else rng.choice([1, 1, 2, 3])
+        nsets = 1 if kind == "adaptive" else rng.choice([1, 1, 2, 3])
         c["sets"] = [gen_points(rng, npts) for _ in range(nsets)]
-        c["static"] = kind == "adaptive" or (nsets == 1 and rng.random() < 0.3)
+        c["static"] = kind == "adaptive" or rng.random() < 0.4
+        if c["static"] and kind != "adaptive":
+            c["static_interval"] = rng.choice([None, None, 1, 2, 3])
+        c["f_wrapped"] = rng.random() < 0.4
         c["c"] = [dy(rng, -1, 1, 4), dy(rng, -1, 1, 4), dy(rng, -1, 1, 4)]
         if kind not in ("adaptive", "hpm_sampler"):
             c["track"] = rng.random() < 0.7
@@ -761,10 +831,11 @@ def gen_cond(rng, case, where, allow_probe=True):
         c["model"] = rng.randrange(nm)
         c["lb"], c["ub"] = rng.choice([("-1", "1"), ("0", "1"), ("-1/2", "3/4"), ("1/4", "2")])
         c["c"] = [dy(rng, -1, 1, 4), dy(rng, -1, 1, 4), dy(rng, -1, 1, 4)]
-        if npar and rng.random() < 0.5:
+        if npar and rng.random() < 0.4:
             c["param"] = rng.randrange(npar); c["res"] = "perD"
         else:
-            c["res"] = "per"
+            c["res"] = rng.choice(["per", "perf"])
+        c["f_wrapped"] = rng.random() < 0.4
         c["track"] = rng.random() < 0.7
     elif kind in ("hpm_data", "hpcm"):
         c["model"] = rng.randrange(nm)
@@ -792,6 +863,27 @@ def gen_cond(rng, case, where, allow_probe=True):
     return c
 
 
+def add_periodic2(rng, case):
+    """a two-variable model u(x, t) with PeriodicConditions in x whose non-periodic sampler runs over t
+    (static never resampling / static with a finite interval / not static), with and without data functions
+    that depend on the periodic variable and are read at both ends"""
+    case["models"].append(dict(kind="poly2", init=[dy(rng, -1, 1) for _ in range(4)]))
+    mi = len(case["models"]) - 1
+    for _ in range(rng.choice([1, 1, 2])):
+        nsets = rng.choice([1, 2])
+        c = dict(kind="periodic", model=mi, weight=rng.choice(["1/2", "3/4", "3/2", "7/4", "1", "-1/4"]),
+                 res=rng.choice(["per2", "per2f", "per2f"]), c=[dy(rng, -1, 1, 4), rng.choice(["1/2", "-3/4", "1", "5/4"]), dy(rng, -1, 1, 4)],
+                 np_sets=[gen_points(rng, rng.choice([1, 2, 3])) for _ in range(nsets)], static=rng.random() < 0.7,
+                 f_wrapped=rng.random() < 0.4, track=rng.random() < 0.7)
+        c["lb"], c["ub"] = rng.choice([("-1", "1"), ("0", "1"), ("-1/2", "3/4")])
+        if c["static"]:
+            c["static_interval"] = rng.choice([None, None, None, 1, 2])
+        npts = len(c["np_sets"][0])
+        c["np_sets"] = [s_[:npts] + ["0"] * (npts - len(s_)) for s_ in c["np_sets"]]
+        case["train"].append(c)
+    return case
+
+
 def gen_case_rat(rng, Nmax=8):
     case = dict(channel="rat")
     nm = rng.choice([1, 1, 2, 3])
@@ -810,6 +902,8 @@ def gen_case_rat(rng, Nmax=8):
         case["models"].append(dict(kind="poly", init=[dy(rng, -1, 1), dy(rng, -1, 1)]))
         case["val"][0] = dict(kind="pinn", weight="1", model=len(case["models"]) - 1, res="lin",
                               sets=[gen_points(rng, 2)], static=False, c=["1/2", "1/4", "0"], track=rng.random() < 0.5)
+    if rng.random() < 0.3:
+        add_periodic2(rng, case)
     case["N"] = rng.randint(1, Nmax)
     case["sanity"] = bool(case["val"]) and rng.random() < 0.5
     case["val_every"] = rng.choice([0, 1, 2, 3]) if case["val"] else 0
@@ -842,6 +936,8 @@ def gen_case_torch(rng, Nmax=8):
         return c
     case["train"] = [cond("t") for _ in range(rng.choice([1, 2, 3, 4]))]
     case["val"] = [cond("v") for _ in range(rng.choice([0, 0, 1, 2]))]
+    if rng.random() < 0.3:
+        add_periodic2(rng, case)
     if rng.random() < 0.35:
         # a DeepONet with its own conditions (they use the iteration argument to cache the branch evaluation)
         case["models"].append(dict(kind="deeponet", seed=rng.randrange(10 ** 6), n_fn=rng.choice([2, 3]), n_disc=rng.choice([3, 4])))
@@ -1221,6 +1317,12 @@ def run(ctx, rep, cases=None):
         rep.count(f"N={case['N']}")
         for c in case["train"]:
             rep.count("train:" + c["kind"])
+            if c.get("res") in ("dataf", "paronlyf", "perf", "per2f") or c.get("with_f"):
+                mode = ("static-never-resampling" if not c.get("static_interval") else f"static-interval") if c.get("static") else "not-static"
+                rep.count(f"datafn:{c['kind']}{'(t-sampler)' if c.get('np_sets') else ''}:{mode}")
+                rep.count("datafn:" + ("UserFunction" if c.get("f_wrapped") else "callable"))
+            elif c.get("static_interval"):
+                rep.count("static-interval-without-datafn")
         for c in case["val"]:
             rep.count("val:" + c["kind"])
         rep.count("validation:" + ("none" if not case["val"] else f"every{case.get('val_every')}" + ("+sanity" if case.get("sanity") else "")))
